@@ -1,6 +1,9 @@
 package c18
 
-import "testing"
+import (
+	"strings"
+	"testing"
+)
 
 // The comparator is checked against the ordering example of semver.org §11 and
 // a few facts the check relies on (independently of Masterminds/semver).
@@ -40,7 +43,7 @@ func TestOracleComparator(t *testing.T) {
 }
 
 func TestExpectClauses(t *testing.T) {
-	cands := []cand{{"e0", "1.2.0+b1", true}, {"e1", "1.2.0", true}, {"e2", "2.0.0-rc.1", true}, {"e3", "3.0.0", false}}
+	cands := []cand{{"e0", "1.2.0+b1", true, ""}, {"e1", "1.2.0", true, ""}, {"e2", "2.0.0-rc.1", true, ""}, {"e3", "3.0.0", false, "emptyurls"}}
 	check := func(q string, exact, needURL bool, wantIDs string, wantHow string) {
 		acc, how := expect(cands, q, exact, needURL)
 		got := ""
@@ -58,4 +61,31 @@ func TestExpectClauses(t *testing.T) {
 	check(">=2.0.0-0", true, true, "e2", "constraint")
 	check("9.9.9", true, false, "", "none")
 	check("bad", true, false, "", "badconstraint")
+}
+
+// The three spellings of "no URLs" render differently and are all treated as
+// not downloadable by the oracle.
+func TestURLSpellings(t *testing.T) {
+	list := []string{"1.0.0", "1.2.0~nokey", "1.2.0~nullurls", "2.0.0~emptyurls"}
+	y, j := string(render(list, "yaml")), string(render(list, "json"))
+	for _, want := range []string{"urls: null\n", "urls: []\n"} {
+		if !strings.Contains(y, want) {
+			t.Errorf("yaml lacks %q:\n%s", want, y)
+		}
+	}
+	for _, want := range []string{`"urls":null`, `"urls":[]`} {
+		if !strings.Contains(j, want) {
+			t.Errorf("json lacks %q: %s", want, j)
+		}
+	}
+	cands := validCands(list)
+	if len(cands) != 4 || cands[0].URL != true || cands[1].URL || cands[2].URL || cands[3].URL || cands[3].Version != "2.0.0" {
+		t.Fatalf("cands %+v", cands)
+	}
+	if acc, _ := expect(cands, "*", false, true); len(acc) != 1 || cands[acc[0]].ID != "e0" {
+		t.Errorf("resolve oracle must pick the only downloadable entry, got %v", acc)
+	}
+	if acc, _ := expect(cands, ">1.0.0", false, true); len(acc) != 0 {
+		t.Errorf("resolve oracle must expect an error when only undownloadable entries match, got %v", acc)
+	}
 }
